@@ -236,4 +236,48 @@ class Plugin(BasePlugin):
         finally:
             for f in not_implemented._IGNORED_FEATURES:
                 not_implemented.warn_on_feature(f)
-        return viol[:3], {'ignore_feature_probes': n}
+        # an operator that is rejected in a plain filter is rejected whatever the REST of the filter
+        # pins down (an _id nothing is stored under, a stored _id, an $in list, other equalities),
+        # through every filter-taking entry point, on a non-empty collection
+        unknown = ['$bogus', '$zzz', '$eqq']
+        m2 = 0
+        rest_choices = [{'_id': 'nope'}, {'_id': common.make_oid(77)}, {'_id': 1}, {'_id': {'$in': ['nope', 7]}},
+                        {'_id': 99}, {'amount': 5}, {'_id': 'nope', 'amount': 1}]
+        for name in list(vocab50.QUERY_FIELD) + unknown:
+            for arg in (1, [1]):
+                cond = {'a': {name: arg}}
+                try:
+                    list(fresh().find(dict(cond)))
+                    continue            # accepted in a plain filter: nothing to compare with
+                except Exception as e:  # noqa
+                    base = type(e).__name__
+                for rest in rest_choices:
+                    f = dict(cond)
+                    f.update(rest)
+                    for via in ('find', 'find_one', 'count_documents', 'update_one', 'upsert', 'delete_many', 'distinct'):
+                        c = fresh()
+                        m2 += 1
+                        try:
+                            if via == 'find':
+                                list(c.find(f))
+                            elif via == 'find_one':
+                                c.find_one(f)
+                            elif via == 'count_documents':
+                                c.count_documents(f)
+                            elif via == 'update_one':
+                                c.update_one(f, {'$set': {'zz': 1}})
+                            elif via == 'upsert':
+                                c.update_one(f, {'$set': {'zz': 1}}, upsert=True)
+                            elif via == 'delete_many':
+                                c.delete_many(f)
+                            else:
+                                c.distinct('a', f)
+                        except Exception:  # noqa
+                            continue
+                        viol.append({'case': {'filter': common.to_jsonable(f), 'via': via},
+                                     'impl': 'no exception (the plain filter %r raises %s)' % (cond, base),
+                                     'failing_clause': 'an operator that is rejected in a plain filter is silently '
+                                                       'ignored when the rest of the filter narrows the scan'})
+                        if len(viol) >= 3:
+                            return viol[:3], {'ignore_feature_probes': n, 'narrowed_filter_probes': m2}
+        return viol[:3], {'ignore_feature_probes': n, 'narrowed_filter_probes': m2}
